@@ -9,9 +9,8 @@ caused by the fuel?  No: the rule stack of the recursion consists of pairwise di
 names, so it is never deeper than the table is long, and the decision is the same for every larger
 fuel (`C05_representable_fuel_stable`, `C05_refusal_not_by_fuel`).
 
-Not proved here (still a reading of `okRule`, as the audit says): the characterisation of
-`representable` on the reference graph ("no undefined rule reachable, every reference closing a cycle
-is in last position along the whole chain").
+The characterisation of `representable` on the reference graph ("no undefined rule reachable, no reference
+that is not last on a reachable cycle") is proved in Props/C05Graph.lean (`C05_representable_iff_graph`).
 -/
 namespace SSVerif.Jsgf
 open SSVerif.Nfa
